@@ -1,9 +1,11 @@
-import GeffProofs.WriteRead
-import GeffModel.GraphOf
+import GeffProofs.SpecDecode
 /-! # C02 — the on-disk layout means what docs/specification.md says, in both directions
 
-Property theorems only.  Specification: `Geff.Spec.denote` (`GeffModel/SpecDecode.lean`), written from
-the document alone with its literal names.  Library: `Geff.WR.writeArrays` / `readCore`. -/
+Property theorems only.  Specification: `Geff.Spec.denote` (`GeffModel/SpecDecode.lean`) — the graph a
+zarr hierarchy denotes, written from the document alone with its literal names, sharing no definition
+with the model of the library (`GeffModel/WriteRead.lean`); `Geff.Spec.graphOf` is the abstraction from
+what `read_to_memory` returns to such a graph.  Tie: `harness/corr/C02.py` (Lean `denote` on raw dumps of
+real stores; an independent zarr-only writer; the real reader with validation on and off). -/
 namespace GeffProps.C02
 open Geff.Np Geff.Store Geff.WR Geff.Spec
 
@@ -15,5 +17,124 @@ theorem paths_are_spec_names :
     Gen.Paths.VALUES = "values" ∧ Gen.Paths.MISSING = "missing" ∧ Gen.Paths.DATA = "data" ∧
     Gen.Paths.NODE_IDS = "nodes/ids" ∧ Gen.Paths.EDGE_IDS = "edges/ids" ∧
     Gen.Paths.NODE_PROPS = "nodes/props" ∧ Gen.Paths.EDGE_PROPS = "edges/props" := by decide
+
+/-- the graph given to the writer: ids, edges, and per property one cell per element (`none` where the
+missing mask is set; float16 upcast to float32) -/
+def graphOfInput (directed : Bool) (nodeIds edgeIds : NdArr) (nps eps : Props) : Graph :=
+  ⟨directed, nodeIds.dtype, nodeIds.flat, pairs edgeIds.flat,
+    nps.map (fun kp => (kp.1, propD (upcast kp.2))), eps.map (fun kp => (kp.1, propD (upcast kp.2)))⟩
+
+/-- equal as attributed graphs: the order in which a hierarchy lists its property groups is not part of
+the graph -/
+def SameGraph (G H : Graph) : Prop :=
+  G.directed = H.directed ∧ G.idDtype = H.idDtype ∧ G.nodes = H.nodes ∧ G.edges = H.edges ∧
+  (∀ k, find k G.nodeProps = find k H.nodeProps) ∧ (∀ k, find k G.edgeProps = find k H.edgeProps)
+
+theorem find_map_propD (ps : Props) (k : String) :
+    find k (ps.map (fun kp => (kp.1, propD (upcast kp.2)))) = (lookupKey k ps).map (fun p => propD (upcast p)) := by
+  induction ps with
+  | nil => rfl
+  | cons a t ih =>
+    obtain ⟨k', p⟩ := a
+    unfold lookupKey at ih ⊢
+    simp only [List.map_cons, find, List.find?_cons]
+    by_cases h : k' = k
+    · simp [h]
+    · simp only [h, if_false, decide_false]; exact ih
+
+/-- **C02, first direction (library writer → specification-only decoder).**  For every target holding
+nothing of a geff yet, every well-formed graph (as in C01) and consistent caller metadata: the store
+`write_arrays` produces is laid out as docs/specification.md says (`denote` is defined on it) and
+denotes exactly the graph given to the writer — same directedness, ids and edges, and for every
+property the same cells, missing ones absent.  (Acceptance by the library's structural validation is
+C04's model; the harness checks `validate_structure` on every written store.) -/
+theorem C02_writer_conforms (s0 : St) (g : InMem) (md : CallerMeta) (n e : Nat) (nps eps : Props)
+    (hfresh : Fresh s0) (hwf : WFGeff g n e nps eps) (hax : AxesOK md n nps) :
+    ∃ s', writeCore vlenCodec s0 g md = .ok s' ∧ ∃ G, denote s' = some G ∧
+      SameGraph G (graphOfInput md.directed g.nodeIds g.edgeIds (expectedNodeProps md n nps) eps) := by
+  obtain ⟨hnd, hw, hchk⟩ := expected_spec md n nps hwf.nodeNames hwf.nodeOK hax
+  have hrows := expected_rows md n nps hwf.nodeNames hwf.nodeOK
+  have hlen : g.nodeIds.len?.isSome = true := by unfold NdArr.len?; rw [hwf.nodeShape]; rfl
+  obtain ⟨s', hwrite, hW⟩ := writeCore_spec vlenCodec vlenCodec_lawful s0 g md (expectedNodeProps md n nps) eps hfresh
+    hwf.idSame.symm hwf.idInt hlen (nodePropsToWrite_eq g md n nps hwf.nodeShape hwf.nodeProps) hwf.edgeProps
+    hnd hw hwf.edgeNames (fun kp hm => (hwf.edgeOK kp hm).1) hchk
+  obtain ⟨G, hG, h1, h2, h3, h4, h5, h6⟩ := denote_of_written s0 s' g.nodeIds g.edgeIds n e (expectedNodeProps md n nps)
+    eps md hW hwf.nodeShape hwf.edgeShape hwf.idInt hwf.idSame hwf.nodeIdsWF hwf.edgeIdsWF hnd
+    (fun kp hm => ⟨hw kp hm, hrows kp hm⟩) hwf.edgeNames hwf.edgeOK
+  refine ⟨s', hwrite, G, hG, h1, h2, h3, h4, ?_, ?_⟩
+  · intro k; rw [h5 k]; exact (find_map_propD _ k).symm
+  · intro k; rw [h6 k]; exact (find_map_propD _ k).symm
+
+/-- **C02, second direction (any conformant store → library reader).**  For *every* store the
+specification assigns a graph to — whatever produced it: `props` groups absent or empty, `missing`
+arrays absent or all-false, arbitrary values under missing entries, var-length sections in any order
+and with gaps, offset tables of any integer dtype, omitted `varlength`, foreign attributes beside
+`geff`, foreign siblings, metadata entries in any order — `read_to_memory` (structural validation off)
+succeeds and returns exactly the graph the store denotes.  `IntsFit`: integer arrays hold integers below
+2^64 (true of every zarr array; the model's integers are unbounded). -/
+theorem C02_reader_accepts_all_conformant (s : St) (hfit : IntsFit s) (G : Graph) (h : denote s = some G) :
+    ∃ r, readCore vlenCodec s = .ok r ∧ graphOf r = G :=
+  readCore_of_denote s hfit G h
+
+/-- the same with structural validation on (the default of `read_to_memory`): `validate` is C04's model of
+`validate_structure`; the one fact used is the named hypothesis that it accepts this conformant store
+(C04's theorem `validate = ok ↔ conformant`; checked by the harness with the real validator on every
+independent store — where it failed on the unrepaired tree, that is D5 / D19 / the int64 offset table). -/
+theorem C02_reader_accepts_all_conformant_validated (validate : St → Outcome Unit) (s : St) (hfit : IntsFit s)
+    (G : Graph) (h : denote s = some G) (hval : validate s = .ok ()) :
+    ∃ r, readToMemory vlenCodec validate s = .ok r ∧ graphOf r = G := by
+  obtain ⟨r, hr, hg⟩ := readCore_of_denote s hfit G h
+  exact ⟨r, by unfold readToMemory; simp only [hval, hr, bind, Except.bind], hg⟩
+
+/-! ## non-vacuity and sensitivity (evaluations of the decoder, not the unbounded claim) -/
+
+section Examples
+
+/-- an independent layout: no `nodes/props` metadata beyond one var-length property whose sections lie
+out of order with a gap in `data`, an int64 offset table, an all-false `missing`, omitted `varlength`
+for the dense edge property, a foreign attribute and a foreign sibling -/
+def exStore : St := [
+  ([], .group [("creator", .other), ("geff", .geff ⟨false, none,
+      [("poly", ⟨"poly", "int8", some true⟩)], [("w", ⟨"w", "float32", none⟩)]⟩)]),
+  (["raw"], .array ⟨.u8, [1], [.i 7]⟩),
+  (["edges"], .group []), (["edges", "ids"], .array ⟨.i16, [1, 2], [.i 5, .i (-3)]⟩),
+  (["edges", "props"], .group []), (["edges", "props", "w"], .group []),
+  (["edges", "props", "w", "values"], .array ⟨.f32, [1], [.f "3fc00000"]⟩),
+  (["edges", "props", "w", "missing"], .array ⟨.bool, [1], [.b false]⟩),
+  (["nodes"], .group []), (["nodes", "ids"], .array ⟨.i16, [2], [.i 5, .i (-3)]⟩),
+  (["nodes", "props"], .group []), (["nodes", "props", "poly"], .group []),
+  (["nodes", "props", "poly", "values"], .array ⟨.i64, [2, 2], [.i 3, .i 2, .i 0, .i 1]⟩),
+  (["nodes", "props", "poly", "data"], .array ⟨.i8, [5], [.i 9, .i 0, .i 0, .i 1, .i 2]⟩)]
+
+example : denote exStore = some ⟨false, .i16, [.i 5, .i (-3)], [(.i 5, .i (-3))],
+    [("poly", ⟨true, [some ⟨.i8, [2], [.i 1, .i 2]⟩, some ⟨.i8, [1], [.i 9]⟩]⟩)],
+    [("w", ⟨false, [some ⟨.f32, [], [.f "3fc00000"]⟩]⟩)]⟩ := by decide
+
+/-- … and the model reader returns that graph on it (an instance of `C02_reader_accepts_all_conformant`) -/
+example : (match readCore vlenCodec exStore with | .ok r => decide (some (graphOf r) = denote exStore) | .error _ => false) = true := by
+  decide
+
+example : IntsFit exStore := intsFit_of_bool _ (by decide)
+
+/-- sensitivity: the decoder notices the symmetric mistakes a same-library round trip cannot see —
+swapped edge columns change the graph; `props` stored under another name, a missing `data`, a mask of
+the wrong length, edge ids of another dtype are not conformant -/
+example : (denote ((["edges", "ids"], .array ⟨.i16, [1, 2], [.i (-3), .i 5]⟩) :: exStore.filter (·.1 ≠ ["edges", "ids"]))).map (·.edges)
+    = some [(.i (-3), .i 5)] := by decide
+example : denote (exStore.map (fun kv => (kv.1.map (fun k => if k = "props" then "properties" else k), kv.2))) ≠ denote exStore := by
+  decide
+example : denote (exStore.filter (·.1 ≠ ["nodes", "props", "poly", "data"])) = none := by decide
+example : denote ((["edges", "props", "w", "missing"], .array ⟨.bool, [2], [.b false, .b true]⟩) ::
+    exStore.filter (·.1 ≠ ["edges", "props", "w", "missing"])) = none := by decide
+example : denote ((["edges", "ids"], .array ⟨.i32, [1, 2], [.i 5, .i (-3)]⟩) :: exStore.filter (·.1 ≠ ["edges", "ids"])) = none := by
+  decide
+
+/-- the example of `GeffProps.C01` written by the model writer is conformant -/
+example : (match writeCore vlenCodec [] ⟨⟨.u8, [2], [.i 1, .i 2]⟩, ⟨.u8, [0, 2], []⟩,
+      some [("p", ⟨.dense ⟨.i8, [2], [.i 3, .i 4]⟩, some ⟨.bool, [2], [.b true, .b false]⟩⟩)], some []⟩ ⟨true, none, [], []⟩ with
+    | .ok s => decide (denote s = some ⟨true, .u8, [.i 1, .i 2], [], [("p", ⟨false, [none, some ⟨.i8, [], [.i 4]⟩]⟩)], []⟩)
+    | .error _ => false) = true := by decide
+
+end Examples
 
 end GeffProps.C02
